@@ -63,11 +63,11 @@ class Case:
             return "-"
         return ",".join(self.e(None if vals is None else vals[i]) for i in range(n))
 
-    def text(self, dbg):
-        hdr = "case %d elem=%s N=%d start=%d vals=%s junk=%d fault=%s dbg=%d nid=%d" % (
+    def text(self, dbg, unst=False):
+        hdr = "case %d elem=%s N=%d start=%d vals=%s junk=%d fault=%s dbg=%d nid=%d%s" % (
             self.cid, self.elem, self.N, self.start,
             ",".join(map(str, self.vals)) if self.vals else "-",
-            self.junk, self.fault, 1 if dbg else 0, NID)
+            self.junk, self.fault, 1 if dbg else 0, NID, " unst=1" if unst else "")
         return hdr + "\n" + "\n".join(self.ops) + "\nend\n"
 
 
